@@ -23,6 +23,12 @@ Proof. vm_compute. reflexivity. Qed.
 Lemma all_blocks_reachable : forallb block_reachable config_blocks = true.
 Proof. vm_compute. reflexivity. Qed.
 
+Lemma all_attrs_accounted : forallb attr_ok config_attrs = true.
+Proof. vm_compute. reflexivity. Qed.
+
+Lemma no_stale_attr_rows : forallb unvalidated_row_live unvalidated_attrs = true.
+Proof. vm_compute. reflexivity. Qed.
+
 (** unfolding of the boolean checks into statements about the generated tables *)
 
 Lemma has_validator_spec vf vc va ng : has_validator vf vc va ng = true ->
